@@ -3,6 +3,7 @@
   Property theorems only (model: G9.Frame, mirror of Conn.recv / Clnt.recv).
 -/
 import G9Proofs.Lemmas.Frame
+import G9Proofs.Lemmas.FrameV
 namespace G9.C13
 open G9 G9.Frame
 
@@ -50,6 +51,65 @@ theorem segmentation_independent (cfg : Cfg) (s : RS) (chunks : List Bytes) :
         simp only at hs
         exact Prod.ext hs.symm ho
       rw [this]
+
+/-! ### requests that change the connection's parameters (Tversion inside the stream) -/
+
+/-- feeding `a ++ b` in one read is feeding `a` and then `b`, also when frames in `a` change the
+    msize and the dialect the later ones are checked and decoded with -/
+theorem feedV_append (upd : Cfg → Bytes → Cfg) (s : VS) (a b : Bytes) :
+    feedV upd s (a ++ b) =
+      ((feedV upd (feedV upd s a).1 b).1, (feedV upd s a).2 ++ (feedV upd (feedV upd s a).1 b).2) := by
+  unfold feedV
+  by_cases hd : s.dead = true
+  · simp [hd]
+  · simp only [hd, Bool.false_eq_true, if_false]
+    have e1 : ∀ (c : Cfg) (u : Bytes), extractV upd (u.length + 1) c u = exV upd c u := fun _ _ => rfl
+    simp only [e1]
+    rw [← List.append_assoc, exV_append upd _ s.cfg (s.unread ++ a) b (Nat.le_refl _)]
+    by_cases hdead : (exV upd s.cfg (s.unread ++ a)).2.2.1 = true
+    · have := exV_dead_rest upd _ _ _ (Nat.le_refl _) hdead
+      simp [hdead, this]
+    · simp [hdead]
+
+/-- For every stream — Tversions that change msize and dialect anywhere in it — and every way of
+    cutting it into reads, the frames handed out, the point at which the connection is ended, the
+    unconsumed remainder and the parameters in force at the end are those of the stream delivered
+    in one piece: a frame is checked and decoded with what the frames before it negotiated, not
+    with what was in force when its `Read` began. -/
+theorem segmentation_independent_renegotiating (upd : Cfg → Bytes → Cfg) (s : VS) (chunks : List Bytes) :
+    feedAllV upd s chunks = feedV upd s chunks.flatten ∨ (chunks = [] ∧ feedAllV upd s chunks = (s, [])) := by
+  induction chunks generalizing s with
+  | nil => right; exact ⟨rfl, rfl⟩
+  | cons ch chs ih =>
+    left
+    simp only [feedAllV, List.flatten_cons]
+    rw [feedV_append]
+    rcases ih (feedV upd s ch).1 with h | ⟨hnil, h⟩
+    · rw [h]
+    · subst hnil
+      simp only [feedAllV, List.flatten_nil]
+      have : feedV upd (feedV upd s ch).1 [] = ((feedV upd s ch).1, []) := by
+        have h0 := feedV_append upd s ch []
+        rw [List.append_nil] at h0
+        have hlen := congrArg (fun p => p.2.length) h0
+        simp only [List.length_append] at hlen
+        have ho : (feedV upd (feedV upd s ch).1 []).2 = [] := List.eq_nil_of_length_eq_zero (by omega)
+        have hs := congrArg (fun p => p.1) h0
+        simp only at hs
+        exact Prod.ext hs.symm ho
+      rw [this]
+
+/-- what `Srv.version` does to the loop's parameters: the msize only ever shrinks, the gate stays -/
+theorem version_lowers_only (srvDotu : Bool) (cfg : Cfg) (fr : Bytes) :
+    (afterFrame srvDotu cfg fr).msize ≤ cfg.msize ∧ (afterFrame srvDotu cfg fr).gate = cfg.gate := by
+  unfold afterFrame
+  split
+  · split
+    · exact ⟨Nat.le_refl _, rfl⟩
+    · refine ⟨?_, rfl⟩
+      show (if _ then _ else _) ≤ _
+      split <;> omega
+  · exact ⟨Nat.le_refl _, rfl⟩
 
 /-- two segmentations of the same stream are indistinguishable -/
 theorem same_stream_same_behaviour (cfg : Cfg) (cs₁ cs₂ : List Bytes) (h : cs₁.flatten = cs₂.flatten)
